@@ -152,11 +152,12 @@ def main(pid, fn, level='model_checking'):
   except BaseException as e:  # noqa
     traceback.print_exc()
     frames = traceback.extract_tb(e.__traceback__)
-    in_repo = [f for f in frames if f.filename.startswith('/repo/')]
+    repo = os.environ.get('VERIF_REPO', '/repo')
+    in_repo = [f for f in frames if f.filename.startswith(repo + '/')]
     if in_repo and not isinstance(e, (KeyboardInterrupt, MemoryError)) and type(e).__name__ != 'TLCError':
       # the implementation raised where the replay expected a normal result: a divergence, not a harness fault
       f = in_repo[-1]
-      chk.violation(f'{pid}:uncaught:{type(e).__name__}@{os.path.relpath(f.filename, "/repo")}:{f.name}',
+      chk.violation(f'{pid}:uncaught:{type(e).__name__}@{os.path.relpath(f.filename, repo)}:{f.name}',
                     f'real code raised {type(e).__name__}: {str(e)[:300]} (at {f.filename}:{f.lineno}) where the specification '
                     'predicts a normal result', {'traceback': traceback.format_exc()[-3000:]})
       chk.finish(rule=chk.cov.get('rule') or 'aborted by an exception raised inside the implementation')
